@@ -14,6 +14,8 @@
   (`C18_table_shape`); real runs' events are fed to that acceptor (correspondence).
 -/
 import DfolsVerif.Proofs.Radius
+import DfolsVerif.Proofs.RadiusRounded
+import Mathlib.Algebra.Order.Floor.Ring
 import DfolsVerif.Gen.RadiusSrc
 import DfolsVerif.Gen.KernelFns
 import DfolsVerif.Spec.RadiusSrc
@@ -157,6 +159,119 @@ theorem C18_reduce_progress (p : TRParams ℝ) (rhobeg rhoend delta rho : ℝ) (
     without evaluating.  (The pinned tree violated the acceptor's `reduce_rho` rule and did spin.) -/
 theorem C18_no_stall {evs : List IterAcc.IEv} {s : IterAcc.St} (h : IterAcc.accept evs = .ok s) (hs : s.streak ≠ 0) :
     (s.streak : Int) ≤ s.startKey - s.endKey := IterAcc.no_stall h hs
+
+/-! ### the radii under rounding
+
+  The same operation sequences, every arithmetic result rounded by an arbitrary monotone, idempotent
+  rounding that overshoots by at most a factor 2 (`Proofs/RadiusRounded.lean`); comparisons, `min`, `max`
+  exact.  IEEE binary64 round-to-nearest satisfies these laws as long as nothing overflows or underflows. -/
+
+noncomputable def applyOpR (R : Rounding) (p : TRParams ℝ) (rhobeg : ℝ) : ℝ × ℝ × ℝ → ROp → ℝ × ℝ × ℝ
+  | (δ, ρ, ρe), .reduce =>
+      if ρe < ρ then ((reduceRho (roundedRadOps R) p ρ ρe).1, (reduceRho (roundedRadOps R) p ρ ρe).2, ρe) else (δ, ρ, ρe)
+  | (δ, ρ, ρe), .tr ratio dnorm tau => (trUpdate (roundedRadOps R) p ratio dnorm tau δ ρ, ρ, ρe)
+  | (δ, ρ, ρe), .geom dist => (geomDelta (roundedRadOps R) δ ρ dist, ρ, ρe)
+  | (_, _, ρe), .restart scale => (rhobeg, rhobeg, R.rnd (scale * ρe))
+  | (_, _, ρe), .growReset => (rhobeg, rhobeg, ρe)
+
+/-- side conditions: the rescaling factor is in (0, 1] and the rescaled rhoend does not underflow to 0;
+    the step norm handed to the delta update is a double -/
+def OpOKR (R : Rounding) (ρe : ℝ) : ROp → Prop
+  | .restart scale => 0 < scale ∧ scale ≤ 1 ∧ 0 < R.rnd (scale * ρe)
+  | .tr _ dnorm _ => R.Rep dnorm
+  | _ => True
+
+theorem applyOpR_inv (R : Rounding) (hc : RepConsts R) (p : TRParams ℝ) (rhobeg : ℝ) (hb : R.Rep rhobeg)
+    (ha1 : 1 / 250 ≤ p.alpha1) (ha1' : p.alpha1 ≤ 1)
+    (s : ℝ × ℝ × ℝ) (op : ROp) (hop : OpOKR R s.2.2 op) (hi : RadInvR R rhobeg s.2.2 s.1 s.2.1) :
+    RadInvR R rhobeg (applyOpR R p rhobeg s op).2.2 (applyOpR R p rhobeg s op).1 (applyOpR R p rhobeg s op).2.1 := by
+  obtain ⟨δ, ρ, ρe⟩ := s
+  obtain ⟨⟨h0, h1, h2, h3⟩, hre, hd, hr⟩ := hi
+  simp only at h0 h1 h2 h3 hre hd hr hop
+  cases op with
+  | reduce =>
+    simp only [applyOpR]
+    split
+    · rename_i hgt
+      exact (reduceRho_inv_rounded R hc p rhobeg ρe δ ρ ⟨⟨h0, h1, h2, h3⟩, hre, hd, hr⟩ hgt ha1 ha1').1
+    · exact ⟨⟨h0, h1, h2, h3⟩, hre, hd, hr⟩
+  | tr ratio dnorm tau =>
+    simp only [applyOpR, OpOKR] at hop ⊢
+    exact ⟨⟨h0, h1, h2, trUpdate_ge_rho_rounded R hc p ratio dnorm tau δ ρ (by linarith) hr⟩, hre,
+      trUpdate_rep R hc p ratio dnorm tau δ ρ hop hr, hr⟩
+  | geom dist =>
+    simp only [applyOpR]
+    exact ⟨⟨h0, h1, h2, geomDelta_ge_rho_rounded R hc δ ρ dist (by linarith) hr⟩, hre, geomDelta_rep R δ ρ dist, hr⟩
+  | restart scale =>
+    simp only [applyOpR, OpOKR] at hop ⊢
+    obtain ⟨hs0, hs1, hpos⟩ := hop
+    have hle : R.rnd (scale * ρe) ≤ ρe := R.rnd_le hre (by nlinarith)
+    exact ⟨⟨hpos, by linarith, le_refl _, le_refl _⟩, R.rep_rnd _, hb, hb⟩
+  | growReset =>
+    simp only [applyOpR]
+    exact ⟨⟨h0, by linarith, le_refl _, le_refl _⟩, hre, hb, hb⟩
+
+open Classical in
+/-- run a sequence of operations, checking each one's side condition against the current `rhoend` -/
+noncomputable def runR (R : Rounding) (p : TRParams ℝ) (rhobeg : ℝ) : ℝ × ℝ × ℝ → List ROp → Option (ℝ × ℝ × ℝ)
+  | s, [] => some s
+  | s, op :: ops => if OpOKR R s.2.2 op then runR R p rhobeg (applyOpR R p rhobeg s op) ops else none
+
+/-- **C18 (radii, under rounding)**: from `delta = rho = rhobeg ≥ rhoend > 0` (doubles), after ANY sequence of
+    radius operations whose side conditions hold — any ratios, step norms, tau, distances, any number of
+    restarts — with EVERY product, quotient, square root and literal rounded by ANY monotone idempotent
+    rounding with `rnd x ≤ 2x`: `delta ≥ rho`, `rhoend ≤ rho ≤ rhobeg`, `rho > 0`. -/
+theorem C18_radii_rounded (R : Rounding) (hc : RepConsts R) (p : TRParams ℝ) (rhobeg rhoend : ℝ)
+    (hb : R.Rep rhobeg) (he : R.Rep rhoend) (h0 : 0 < rhoend) (h1 : rhoend ≤ rhobeg)
+    (ha1 : 1 / 250 ≤ p.alpha1) (ha1' : p.alpha1 ≤ 1) (ops : List ROp) (s : ℝ × ℝ × ℝ)
+    (hrun : runR R p rhobeg (rhobeg, rhobeg, rhoend) ops = some s) :
+    s.2.1 ≤ s.1 ∧ s.2.2 ≤ s.2.1 ∧ s.2.1 ≤ rhobeg ∧ 0 < s.2.1 := by
+  have key : ∀ (ops : List ROp) (s0 s1 : ℝ × ℝ × ℝ), RadInvR R rhobeg s0.2.2 s0.1 s0.2.1 →
+      runR R p rhobeg s0 ops = some s1 → RadInvR R rhobeg s1.2.2 s1.1 s1.2.1 := by
+    intro ops
+    induction ops with
+    | nil => intro s0 s1 hi h; simp only [runR, Option.some.injEq] at h; subst h; exact hi
+    | cons op ops ih =>
+      intro s0 s1 hi h
+      simp only [runR] at h
+      split at h
+      · rename_i hok
+        exact ih _ _ (applyOpR_inv R hc p rhobeg hb ha1 ha1' s0 op hok hi) h
+      · simp at h
+  obtain ⟨⟨a, b, c, d⟩, _⟩ := key ops _ s ⟨⟨h0, h1, le_refl _, le_refl _⟩, he, hb, hb⟩ hrun
+  exact ⟨d, b, c, by linarith⟩
+
+/-- non-vacuity of the rounding laws: rounding DOWN to a grid of spacing `1/2^k` is monotone, idempotent and
+    never overshoots; the integers (hence all constants of `RepConsts`) are on the grid.  (A second,
+    trivial instance is `rnd = id`, which gives back the exact-arithmetic theorem.) -/
+noncomputable def gridRounding (k : ℕ) : Rounding where
+  rnd x := (⌊x * 2 ^ k⌋ : ℝ) / 2 ^ k
+  mono := by
+    intro x y h
+    have hp : (0 : ℝ) < 2 ^ k := by positivity
+    apply div_le_div_of_nonneg_right _ (le_of_lt hp)
+    exact_mod_cast Int.floor_le_floor (mul_le_mul_of_nonneg_right h (le_of_lt hp))
+  idem := by
+    intro x
+    have hp : (2 : ℝ) ^ k ≠ 0 := by positivity
+    rw [div_mul_cancel₀ _ hp, Int.floor_intCast]
+  over := by
+    intro x hx
+    have hp : (0 : ℝ) < 2 ^ k := by positivity
+    have : (⌊x * 2 ^ k⌋ : ℝ) / 2 ^ k ≤ x := by
+      rw [div_le_iff₀ hp]; exact Int.floor_le _
+    linarith
+
+theorem gridRounding_consts (k : ℕ) : RepConsts (gridRounding k) := by
+  have h : ∀ n : ℤ, (gridRounding k).Rep (n : ℝ) := by
+    intro n
+    have hp : (2 : ℝ) ^ k ≠ 0 := by positivity
+    show ((⌊(n : ℝ) * 2 ^ k⌋ : ℤ) : ℝ) / 2 ^ k = n
+    have : ((n : ℝ) * 2 ^ k) = ((n * 2 ^ k : ℤ) : ℝ) := by push_cast; ring
+    rw [this, Int.floor_intCast]
+    push_cast
+    field_simp
+  exact ⟨by simpa using h 1, by simpa using h 4, by simpa using h 16, by simpa using h 250, by simpa using h 10000000000⟩
 
 /-! ### the diagnostic table -/
 
